@@ -366,6 +366,10 @@ PROGS = [
     "x.shape = (2, 1)\nr = x",
     "r = mg.einsum('i,i->', x, y)",
     "r = mg.where(M, x, y)",
+    # a shape that non-contiguous memory cannot take without a copy: refused with and without tracking, and the view keeps writing through
+    "w = z.T\ntry:\n    w.shape = (4,)\n    e = 0.0\nexcept AttributeError:\n    e = 1.0\nw[...] = 3.0\nr = z * 1.0 + e",
+    "w = z[:, ::-1]\ntry:\n    w.shape = (4,)\n    e = 0.0\nexcept AttributeError:\n    e = 1.0\nw[0] = y\nr = z * 1.0 + e",
+    "w = z[::-1]\nw.shape = (4,)\nw[:2] = y\nr = z + w.reshape(2, 2)" if False else "w = z.reshape(4)\nw.shape = (2, 2)\nw[0] = y\nr = z + w",
 ]
 
 
